@@ -105,7 +105,10 @@ def Fixes.none : Fixes := {}
 
 /-- **What /repo contains now.**  Flip a field to `true` when the corresponding
 `fix:` commit is applied; the driver then expects the repaired behaviour. -/
-def deployed : Fixes := Fixes.none
+def deployed : Fixes :=
+  { Fixes.none with
+    -- /repo 44e5446 "fix: validateStdRevision checks the output counts before indexing and sums without panicking"
+    revisionSum := true }
 
 /-! ## steps: what one Go function does, in order -/
 
